@@ -15,12 +15,13 @@ B3(x, y, z) == [kind |-> "msg", arr |-> TRUE, mem |-> <<x, y, z>>, n |-> 0]
 G  == [kind |-> "garbage", arr |-> FALSE, mem |-> <<>>, n |-> 0]
 E  == [kind |-> "empty",   arr |-> TRUE,  mem |-> <<>>, n |-> 0]
 
-AllFixed == [F1 |-> TRUE, F23 |-> TRUE, F4 |-> TRUE, F7 |-> TRUE, F9 |-> TRUE]
+AllFixed == [F1 |-> TRUE, F23 |-> TRUE, F4 |-> TRUE, F7 |-> TRUE, F9 |-> TRUE, F14 |-> TRUE]
 NoF1  == [AllFixed EXCEPT !.F1  = FALSE]
 NoF23 == [AllFixed EXCEPT !.F23 = FALSE]
 NoF4  == [AllFixed EXCEPT !.F4  = FALSE]
 NoF7  == [AllFixed EXCEPT !.F7  = FALSE]
 NoF9  == [AllFixed EXCEPT !.F9  = FALSE]
+NoF14 == [AllFixed EXCEPT !.F14 = FALSE]
 
 \* --- pools per property family ---------------------------------------------------
 PoolC01 == {S(C(1,"ok")), S(N("ok")), B2(C(1,"ok"), C(2,"ok")), B2(C(1,"ok"), N("ok")), B2(N("ok"), N("ok")),
